@@ -369,6 +369,10 @@ def m_unwrap_or_default(it, callee, o):
     if o.variant == 1: return o.fields[0]
     ty = re.fullmatch(r'std::option::Option::<(.*)>::unwrap_or_default', callee).group(1)
     return default_of(it, ty)
+@model(r'core::bool::<impl bool>::then::<.*>')
+def m_bool_then(it, b, clo): return SOME(it.call_closure(clo)) if B(it, b) else NONE()
+@model(r'core::bool::<impl bool>::then_some::<.*>')
+def m_bool_then_some(it, b, v): return SOME(v) if B(it, b) else NONE()
 @model(r'std::result::Result::<(.*)>::unwrap_or_default', True)
 def m_res_unwrap_or_default(it, callee, r):
     if r.variant == 0: return r.fields[0]
@@ -382,6 +386,10 @@ def default_of(it, ty):
     if ty.startswith('(') and ty.endswith(')'):
         return [default_of(it, t) for t in split_top(ty[1:-1], ',') if t.strip()]
     return it.call('<%s as std::default::Default>::default' % ty, [])
+@model(r'std::option::Option::<.*>::filter::<.*>')
+def m_opt_filter(it, o, clo):
+    if o.variant != 1: return o
+    return o if B(it, it.call_closure(clo, Ref(Box_(o.fields[0])))) else NONE()
 @model(r'std::option::Option::<.*>::unwrap_or_else::<.*>')
 def m_unwrap_or_else(it, o, clo): return o.fields[0] if o.variant == 1 else it.call_closure(clo)
 @model(r'std::option::Option::<.*>::map_or::<.*>')
@@ -584,6 +592,7 @@ def m_str_index(it, callee, s, rng):
         a, b = byte_offset_to_index(it, sv, f[0]), byte_offset_to_index(it, sv, f[1])
     return Ref(Box_(SStr(sv.chars[a:b])))
 REG.append((re.compile(r'<std::string::String as std::ops::Index(?:Mut)?<(.*)>>::index(?:_mut)?'), m_str_index, True))
+REG.append((re.compile(r'<str as std::ops::Index<(.*)>>::index'), m_str_index, True))
 @model(r'core::str::<impl str>::get::<.*>', True)
 def m_str_get(it, callee, s, rng):
     try: return SOME(m_str_index(it, callee, s, rng))
@@ -630,6 +639,11 @@ def find_sub(it, hay, nee, start=0):
     return None
 @model(r'core::str::<impl str>::contains::<&(str|std::string::String)>')
 def m_contains_str(it, s, t): return find_sub(it, deref_all(s).chars, deref_all(t).chars) is not None
+@model(r'core::str::<impl str>::(starts_with|ends_with)::<(fn\(char\) -> bool \{.*\}|\{closure@.*\})>', True)
+def m_starts_ends_pred(it, callee, s, f):
+    cs = deref_all(s).chars
+    if not cs: return False
+    return B(it, it.call_closure(f, cs[0] if '::starts_with::' in callee else cs[-1]))
 @model(r'core::str::<impl str>::starts_with::<(&str|char|&std::string::String)>')
 def m_starts_with(it, s, t):
     h = deref_all(s).chars; t = deref_all(t); n = t.chars if isinstance(t, SStr) else [t]
